@@ -181,3 +181,12 @@ def run(ctx, rep, tier):
     _run_q01(ctx, rep, tier)
     from .shared import delegate
     delegate(ctx, rep, tier, "C01", ("C01.q",), "C10.h", "the non-accepting tail `return OK` of a state's switch is not reachable mid-chunk through a loop end state without Else")
+
+
+_run_l05 = run
+
+
+def run(ctx, rep, tier):
+    _run_l05(ctx, rep, tier)
+    from .shared import delegate
+    delegate(ctx, rep, tier, "C05", ("C05.l",), "C10.i", "one advance per consumed byte also when a yield shares a transition with other actions (optimiser guard)")
